@@ -22,8 +22,27 @@ ITEMS = [0, 1, 2, 3, 4, 5, (0, 1), (1, 0), 'a']
 
 
 def _get_class():
+    """The candidate-set class named in the property's anchors, or None if it is absent or its interface differs from the
+    one this harness drives (then only the behavioural half applies - a refactoring must not become a false alarm)."""
+    import inspect
     import EoN.simulation as sim
     cls = getattr(sim, '_ListDict_', None)
+    if cls is None:
+        return None
+    try:
+        want = {'insert': ['item', 'weight'], 'update': ['item', 'weight_increment'], 'remove': [None], 'choose_random': [],
+                'random_removal': [], 'total_weight': [], '__len__': [], '__contains__': [None]}
+        for name, params in want.items():
+            f = getattr(cls, name, None)
+            if f is None:
+                return None
+            got = [p_ for p_ in inspect.signature(f).parameters if p_ != 'self']
+            if len(got) < len(params) or any(a is not None and a != b for a, b in zip(params, got)):
+                return None
+        if 'weighted' not in inspect.signature(cls.__init__).parameters:
+            return None
+    except (TypeError, ValueError):
+        return None
     return cls
 
 
@@ -282,7 +301,7 @@ def run(ctx):
     ctx.assumptions = ['selections only when sum of weights > 0', 'increments are non-negative (property statement)',
                        'the candidate-set class is EoN.simulation._ListDict_ (anchor); randomness via EoN.simulation.random']
     if _get_class() is None:
-        ctx.extra['direct_half'] = 'candidate-set class not found; behavioural half only'
+        ctx.extra['direct_half'] = 'candidate-set class not found or with a different interface; behavioural half only'
     else:
         run_machine(ctx, 'machine-weighted', True, 250 if quick else 4000, 40 if quick else 60)
         run_machine(ctx, 'machine-unweighted', False, 60 if quick else 600, 25)
